@@ -35,6 +35,8 @@ deriving Repr, DecidableEq
 
 def nameMax : Nat := 255
 
+def isDirAt (t : Tree) (p : Path) : Bool := t.lstat p == some .dir
+
 /-- kernel-style walk: follows every symlink -/
 def kwalk (t : Tree) : Nat → Path → List Name → Walk
   | 0, _, _ => .eloop
@@ -43,8 +45,9 @@ def kwalk (t : Tree) : Nat → Path → List Name → Walk
     | some n => .found cur n
     | none => .enoent
   | fuel + 1, cur, name :: rest =>
-    if name = "" ∨ name = "." then kwalk t fuel cur rest
-    else if name = ".." then kwalk t fuel cur.dropLast rest
+    -- `.`, `..` and an empty component (doubled or trailing slash) need a directory to stand on: ENOTDIR otherwise
+    if name = "" ∨ name = "." then (if isDirAt t cur then kwalk t fuel cur rest else .enoent)
+    else if name = ".." then (if isDirAt t cur then kwalk t fuel cur.dropLast rest else .enoent)
     else
       match t.lstat cur with
       | some .dir =>
@@ -72,10 +75,11 @@ def normpath (p : List Name) : Path :=
 
 def nameHasNul (n : Name) : Bool := n.toList.contains (Char.ofNat 0)
 
-/-- `Path.resolve()` (non-strict): an embedded NUL raises `ValueError`; otherwise realpath; on a
-    loop the lexically normalised remainder, then the `stat()` probe that turns ELOOP into an
-    exception (none) -/
-def resolveT (t : Tree) (p : Path) : Option Path :=
+/-- `Path.resolve()` (non-strict; what the handler used before it resolved strictly): an embedded
+    NUL raises `ValueError`; otherwise realpath; on a loop the lexically normalised remainder, then
+    the `stat()` probe that turns ELOOP into an exception (none).  Its result can still end in a
+    symlink (a link whose target passes through the link itself). -/
+def resolveLax (t : Tree) (p : Path) : Option Path :=
   if p.any nameHasNul then none
   else
     let (r, ok) := realpath t p
@@ -83,6 +87,12 @@ def resolveT (t : Tree) (p : Path) : Option Path :=
     else
       let n := normpath r
       if kwalkTop t n = .eloop then none else some n
+
+/-- `Path.resolve(strict=True)` as `StaticFileHandler` calls it: an embedded NUL raises
+    `ValueError`, a component that does not exist (or whose name is too long) and a symlink loop
+    raise `OSError` / `RuntimeError` (none) -/
+def resolveT (t : Tree) (p : Path) : Option Path :=
+  if p.any nameHasNul then none else realpathStrict t p
 
 structure FileMeta where
   id : Nat
